@@ -19,7 +19,8 @@ RULE = ('(a) str round trip: rules drawn from C01\'s generator (all frequencies 
         'start as an inclusion date), ignoretz, cache are checked against their documented meaning.  (d) malformed texts '
         '(unknown part or property, empty value, bad weekday / frequency / number, duplicate VALUE parameter, RRULE '
         'parameters, several DTSTART values, empty string) must raise ValueError.  Non-trivial = every case; distinct = '
-        '(workload, BY-key set, spelling variant, option set).')
+        '(workload, BY-key set, spelling variant, option set).'
+        ' Also: ignoretz with Z on every value of a set text, compatible=True on folded text, and cold-start calls (eight texts given to a fresh interpreter as its very first call, compared with the warm answer).')
 ASSUMPTIONS = ['the keyword construction is the meaning of a rule (C01)', 'vf renderer produces RFC 5545 property text independently of str(rrule)']
 MANIFEST = {
     'technique': 'runtime round-trip / differential monitor: real str(rrule) and an independent RFC 5545 renderer -> real rrulestr -> occurrence comparison with the keyword-built rule (period probe bounded), set model for multi-line input',
